@@ -205,7 +205,8 @@ class Ctx:
         return res
 
     # ---------------- running the two sides ----------------
-    def _run(self, argv, lines, env=None, timeout=3600):
+    def _run(self, argv, lines, env=None, timeout=None):
+        timeout = timeout or int(os.environ.get("VERIF_EXEC_TIMEOUT", "600"))
         inp = os.path.join(self.scratch, "in_%d_%d.txt" % (os.getpid(), random.getrandbits(32)))
         with open(inp, "w") as f:
             f.write("\n".join(lines) + "\n")
@@ -217,9 +218,18 @@ class Ctx:
         if env:
             e.update(env)
         with open(inp) as fin:
-            r = subprocess.run(argv, stdin=fin, capture_output=True, env=e, timeout=timeout)
+            p = subprocess.Popen(argv, stdin=fin, stdout=subprocess.PIPE, stderr=subprocess.PIPE, env=e)
+            try:
+                out, err = p.communicate(timeout=timeout)
+                rc = p.returncode
+            except subprocess.TimeoutExpired:
+                # an operation that does not return is a result: everything printed so far is kept
+                p.kill()
+                out, err = p.communicate()
+                rc = -9
+                err += b"\n<<harness: the process did not finish within %d s and was killed: the operation after the last answered line does not return>>" % timeout
         os.unlink(inp)
-        return r.returncode, r.stdout.decode("latin-1").split("\n"), r.stderr.decode("latin-1")
+        return rc, out.decode("latin-1").split("\n"), err.decode("latin-1")
 
     def run_exec(self, lines, env=None, exe=None):
         rc, out, err = self._run([exe or self.exec_path], lines, env)
